@@ -634,6 +634,9 @@ func (x *Exec) evalQuant(env *SpecEnv, e EQuant) Val {
 	// no arithmetic and E-matching is robust.
 	saved := x.idxUses
 	x.idxUses = map[string]map[string]bool{}
+	for k, m := range saved {
+		x.idxUses[k] = m // uses of outer bound variables inside this body still count for them
+	}
 	n := env
 	for _, v := range vars {
 		n = n.with(v.p.Name, Val{T: Term{v.name, v.srt}, Typ: v.t})
